@@ -358,7 +358,8 @@ def cbmc_cmd(g, binary, backend):
     cmd = ["cbmc", binary, "--json-ui", "--trace", "--drop-unused-functions"]
     cmd += (g["checks"] if g["checks"] is not None else DEFAULT_CHECKS)
     if g["unwind"] is not None:
-        cmd += ["--unwind", str(g["unwind"]), "--unwinding-assertions"]
+        cmd += ["--unwind", str(g["unwind"])]
+        cmd += ["--no-unwinding-assertions"] if "--no-unwinding-assertions" in g["extra"] else ["--unwinding-assertions"]
     for u in g["unwindset"]:
         cmd += ["--unwindset", u]
     if g["obj_bits"]:
